@@ -390,9 +390,10 @@ class C02(Property):
         "cartesian key/suffix slices -> SFV/Gen/CombGuards.lean)",
         "modelled, not verified: dict insertion order, deque append/pop, itertools.product order, `dict |= dict` on disjoint keys, "
         "str.split('.')/join — each exercised by the correspondence check on every run",
-        "nested combinators (outer dot product over an inner dot/cartesian product): only the outer level is proved "
-        "(nested_any_order_partial, on the derived element stream); the composition with the inner theorems rests on the correspondence "
-        "check and the monitor (composition of the two specifications)",
+        "nested combinators: dot[cart1[p0..],plain ports] and dot[dot[p0..],plain ports] are proved (nested_cart_any_order, "
+        "nested_dot_any_order: emitted schemas related to the specification up to the order of their entries); other depth-2 trees "
+        "(inner cartesian depth>=2, several inner combinators) only at the outer level (nested_any_order_partial) — there the "
+        "correspondence check and the monitor (composition of the two specifications) are the evidence",
     ]
     technique = ("Lean 4 theorems about the loop-faithful executable model (dot product: loop = closed form + order-independence invariant + "
                  "emitted values; cartesian product: product algebra up to permutation + 'emitted so far = all configurations' invariant; "
@@ -403,11 +404,12 @@ class C02(Property):
                   "port (values included); the cartesian product (any depth >= 1) emits exactly the cross product per key with the composite "
                   "tags; both proved about the loop-faithful model the driver runs. The full-strength statements without well-formedness are "
                   "proved false by witnesses that reproduce on the real classes (known findings: order dependence, IndexError, mixed "
-                  "depths). Nested combinators (depth-2 trees): outer level proved (nested_any_order_partial), composition checked by correspondence "
-                  "+ monitor only; a cartesian product over an inner combinator crashes on the real class (known finding)")
+                  "depths). Nested combinators: the two trees the CWL translator builds (outer dot over an inner depth-1 cartesian / inner dot product "
+                  "plus plain ports) are proved by composition; other depth-2 trees only at the outer level + correspondence/monitor; a "
+                  "cartesian product over an inner combinator crashes on the real class (known finding)")
     level_note = ("Lean kernel, axioms within {propext, Classical.choice, Quot.sound}; theorems are about the Lean models in SFV/Model/Comb.lean "
                   "(loop-faithful) and SFV/Lemmas/Comb*.lean (closed form); the tie to the Python classes is the translator of the guards plus "
-                  "the correspondence check of emission sequences; for nested combinators only the outer level has a theorem")
+                  "the correspondence check of emission sequences; nested theorems relate schemas up to the order of their entries")
     assumptions = ["tags are dotted decimals rooted at 0; per port the tags are distinct and no tag is a prefix of another (dot), all tags have "
                    "the same depth >= the combinator depth (cartesian); ports of different items are disjoint; combinator depth >= 1"]
     quick_budget_s = 600
